@@ -3,6 +3,8 @@ Driver for C12.
   c12 chain <rows> <cols> <B|P> <pattern|-> <interleave: +c|-c|0> => <n> <n_cw> <k> <rate bits> <sign vector>…
       sign vector: one char per LLR the injected decoder received: '+' (> 0), '-' (< 0), '0' (exactly zero), 'n' (NaN)
   c12 noise <k> <n> <bps> <ebn0 bits> => <sigma bits> <N> <mean bits> <var bits> <lag1 bits>
+  c12 scale <rows> <cols> <B|P> <pattern|-> <interleave> <ebn0 bits> => <llr bits,…>      first frame handed to the decoder at 60 dB
+  c12 awgn <sigma bits> <N> => 14 statistics of AwgnChannel::add_noise on complex and real symbols
       statistics of the channel noise recovered from BPSK LLRs with the model's sigma
 -/
 import LdpcV.Model.Proto
@@ -44,6 +46,11 @@ def checkVector (h : SM) (cfg : Config) (v : String) : Option String :=
     | .ok l => if String.ofList (l.map signChar) == v then none else some "model-chain-gives-different-sign-pattern"
     | _ => some "model-chain-fails"
 
+def firstSomeS : List (Option String) → Option String
+  | [] => none
+  | some x :: _ => some x
+  | none :: xs => firstSomeS xs
+
 def handle (inp out : List String) : String :=
   match inp with
   | ["chain", r, c, m, p, i] =>
@@ -79,6 +86,45 @@ def handle (inp out : List String) : String :=
         else none
       verdict out out prop
     | _, _, _, _, _ => "BADLINE c12 noise"
+  | ["scale", r, c, m, p, i, e] =>
+    match parseSM r c, parseCfg m p i, parseF e, ((out.getD 0 "").splitOn ",").mapM parseF with
+    | some h, some cfg, some ebn0, some llrs =>
+      let ncw := h.ncols
+      let k := h.ncols - h.nrows
+      let rate := Float.ofNat k / Float.ofNat (frameSize cfg ncw)
+      let sigma := Modulation.noiseSigma Sc.float ebn0 rate (Float.ofNat (bitsPerSymbol cfg))
+      let known : List (Option Bool) := llrs.map (fun x => if x == 0 then none else some (x < 0))
+      let prop : Option String :=
+        if llrs.length ≠ ncw then some "llr-vector-length-is-not-the-codeword-length" else
+        if (known.filter (·.isNone)).length > 12 then none else
+        match (completions known).find? (fun w => syndromeOK h w) with
+        | none => some "signs-are-not-those-of-a-codeword-in-codeword-bit-order"
+        | some cw =>
+          match noiseless Sc.float cfg sigma cw with
+          | .ok l =>
+            -- at 60 dB the noise moves an LLR by well under 2 %; a wrong rate or bits-per-symbol factor in sigma^2 moves it by >= 9 %
+            if (l.zip llrs).all (fun q => (q.1 - q.2).abs ≤ 0.04 * q.1.abs) then none
+            else some s!"llr-magnitudes-do-not-match-sigma-from-EbN0-rate-after-puncturing-and-bits-per-symbol (model sigma {sigma})"
+          | _ => some "model-chain-fails"
+      verdict out out prop
+    | _, _, _, _ => "BADLINE c12 scale"
+  | ["awgn", sg, cnt] =>
+    match parseF sg, cnt.toNat?, out.mapM parseF with
+    | some sigma, some n, some [mre, vre, lre, qre, mim, vim, lim, qim, cov, cross1, mr, vr, lr, qr] =>
+      let N := Float.ofNat n
+      let s2 := sigma * sigma
+      let bad (nm : String) (m v l q : Float) : Option String :=
+        if m.abs > 6 * sigma / N.sqrt then some s!"{nm}-noise-mean-not-zero {m}"
+        else if (v - s2).abs > 6 * s2 * (2 / N).sqrt then some s!"{nm}-noise-variance-is-not-sigma^2 {v} vs {s2}"
+        else if l.abs > 6 * s2 / N.sqrt then some s!"{nm}-noise-consecutive-samples-correlated {l}"
+        -- 4th central moment of a Gaussian is 3 sigma^4, its estimator has variance 96 sigma^8 / N
+        else if (q - 3 * s2 * s2).abs > 6 * s2 * s2 * (96 / N).sqrt then some s!"{nm}-noise-fourth-moment-not-Gaussian {q} vs {3 * s2 * s2}"
+        else none
+      let prop := firstSomeS [bad "real-part" mre vre lre qre, bad "imaginary-part" mim vim lim qim, bad "real-channel" mr vr lr qr,
+        (if cov.abs > 6 * s2 / N.sqrt then some s!"real-and-imaginary-noise-correlated {cov}" else none),
+        (if cross1.abs > 6 * s2 / N.sqrt then some s!"imaginary-noise-correlated-with-next-real-noise {cross1}" else none)]
+      verdict out out prop
+    | _, _, _ => "BADLINE c12 awgn"
   | _ => "BADLINE c12 kind"
 
 end LdpcV.Driver.C12
